@@ -106,10 +106,13 @@ def obs? (s : String) : Option Obs :=
 
 /-! ### the specification -/
 
-/-- Tabulate a dictionary (keeps closures shallow). -/
-def tab (d : PenDict) : PenDict :=
-  let l := PenAttr.all.map d
-  fun a => (l[PenAttr.all.idxOf a]?).getD none
+/-- A dictionary as data (the driver's state): the values of `PenAttr.all` in order.  `PenDict` is a function
+    type, so it is re-tabulated after every operation to keep evaluation linear. -/
+abbrev DictTab := Array (Option PenVal)
+
+def DictTab.toDict (t : DictTab) : PenDict := fun a => (t[PenAttr.all.idxOf a]?).getD none
+def tabulate (d : PenDict) : DictTab := (PenAttr.all.map d).toArray
+def DictTab.empty : DictTab := tabulate PenDict.empty
 
 def fieldOf : PenAttr → Nat × Bool
   | .fg => (fgindex_width, fgindex_signed) | .bg => (bgindex_width, bgindex_signed)
@@ -213,7 +216,7 @@ def docDesc? (s : List UInt8) : Option (Int × Option RGB8) :=
 
 structure St where
   objs : Array PenObj := #[]
-  dicts : Array PenDict := #[]
+  dicts : Array DictTab := #[]
 
 def slot? (s : String) : Option Nat :=
   match s.toNat? with
@@ -277,9 +280,9 @@ def bad (st : St) : St × String × String := (st, "bad-op", "")
 def step (st : St) (ts : List String) (impl : String) : St × String × String :=
   let io := obs? impl
   -- finish: print model, evaluate the spec on the implementation's observation
-  let finish (objs : Array PenObj) (dicts : Array PenDict) (ret : String) (specRet : Option String) (why : String) :
+  let finish (objs : Array PenObj) (dtabs : Array DictTab) (ret : String) (specRet : Option String) (why : String) :
       St × String × String :=
-    let dicts := dicts.map tab
+    let dicts : Array PenDict := dtabs.map DictTab.toDict
     let m := ret ++ dump objs
     let sv :=
       match io with
@@ -291,10 +294,10 @@ def step (st : St) (ts : List String) (impl : String) : St × String × String :
            | none => ""),
           firstErr ((List.range NPEN).map fun k => checkPen k dicts[k]! o.pens[k]!),
           checkEquiv dicts o ]
-    ({ objs := objs, dicts := dicts }, m, sv)
+    ({ objs := objs, dicts := dtabs }, m, sv)
   match ts with
   | ["new"] =>
-    finish (Array.replicate NPEN PenObj.new) (Array.replicate NPEN PenDict.empty) "-" (some "-") ""
+    finish (Array.replicate NPEN PenObj.new) (Array.replicate NPEN DictTab.empty) "-" (some "-") ""
   | ["tables"] => if st.objs.size = NPEN then (st, tablesObs, "") else bad st
   | op :: is :: rest =>
     if st.objs.size ≠ NPEN then bad st else
@@ -302,9 +305,10 @@ def step (st : St) (ts : List String) (impl : String) : St × String × String :
     | none => bad st
     | some i =>
       let o := st.objs[i]!
-      let d := st.dicts[i]!
+      let d : PenDict := st.dicts[i]!.toDict
+      let dict (j : Nat) : PenDict := st.dicts[j]!.toDict
       let setO (o' : PenObj) := st.objs.set! i o'
-      let setD (d' : PenDict) := st.dicts.set! i d'
+      let setD (d' : PenDict) := st.dicts.set! i (tabulate d')
       -- what the implementation reads back for attribute a of pen i (for unrepresentable stores)
       let implRead (a : PenAttr) : Option PenVal := io.map fun ob => typedRead ob.pens[i]! a
       match op, rest with
@@ -368,7 +372,7 @@ def step (st : St) (ts : List String) (impl : String) : St × String × String :
               match io, docDesc? s with
               | some ob, some (idx, rgb) =>
                 if ob.ret ≠ "1" then s!"documented description rejected"
-                else if a.type = .colour ∧ implRead a ≠ some (.c idx rgb) then
+                else if a.type = .colour ∧ representable a idx ∧ implRead a ≠ some (.c idx rgb) then
                   s!"documented description should give {showVal (.c idx rgb)}"
                 else ""
               | _, _ => ""
@@ -389,7 +393,7 @@ def step (st : St) (ts : List String) (impl : String) : St × String × String :
         | some j, some ow =>
           let ow := ow ≠ 0
           let o' := if i = j then o.copySelf ow else o.copy st.objs[j]!.pen ow
-          finish (setO o') (setD (PenDict.copy d st.dicts[j]! ow)) "-" (some "-") ""
+          finish (setO o') (setD (PenDict.copy d (dict j) ow)) "-" (some "-") ""
         | _, _ => bad st
       | "copyattr", [s, a] =>
         match slot? s, int? a with
@@ -397,27 +401,27 @@ def step (st : St) (ts : List String) (impl : String) : St × String × String :
           match PenAttr.ofCode? ac with
           | some a =>
             let o' := if i = j then o.copyAttrSelf a else o.copyAttr st.objs[j]!.pen a
-            finish (setO o') (setD (PenDict.copyAttr d st.dicts[j]! a)) "-" (some "-") ""
+            finish (setO o') (setD (PenDict.copyAttr d (dict j) a)) "-" (some "-") ""
           | none => finish st.objs st.dicts "-" (some "-") ""
         | _, _ => bad st
       | "clone", [s] =>
         match slot? s with
-        | some j => finish (setO { pen := Pen.clone st.objs[j]!.pen }) (setD st.dicts[j]!) "-" (some "-") ""
+        | some j => finish (setO { pen := Pen.clone st.objs[j]!.pen }) (st.dicts.set! i st.dicts[j]!) "-" (some "-") ""
         | none => bad st
       | "equiv", [s] =>
         match slot? s with
         | some j =>
-          finish st.objs st.dicts (b01 (o.pen.equiv st.objs[j]!.pen)) (some (b01 (PenDict.equiv d st.dicts[j]!))) ""
+          finish st.objs st.dicts (b01 (o.pen.equiv st.objs[j]!.pen)) (some (b01 (PenDict.equiv d (dict j)))) ""
         | none => bad st
       | "equivattr", [s, a] =>
         match slot? s, int? a with
         | some j, some ac =>
           let specR := match PenAttr.ofCode? ac with
-            | some a => some (b01 (d.read a == st.dicts[j]!.read a))
+            | some a => some (b01 (d.read a == (dict j).read a))
             | none => none
           finish st.objs st.dicts (b01 (o.pen.equivAttrC st.objs[j]!.pen ac)) specR ""
         | _, _ => bad st
-      | "newattrs", n :: prs =>
+      | "mkattrs", n :: prs =>
         match n.toNat?, pairsOf prs with
         | some n, some pairs =>
           if pairs.length ≠ n then bad st else
